@@ -8,6 +8,8 @@ import (
 	"testing"
 	"testing/synctest"
 
+	"k8s.io/apimachinery/pkg/types"
+
 	"istio.io/istio/pkg/kube/controllers"
 	"istio.io/istio/pkg/kube/krt"
 	"verifharness/internal/wire"
@@ -162,19 +164,40 @@ func (s *subscriber) snapshot() []string {
 	return append([]string(nil), s.evs...)
 }
 
+// fetchSrc is a collection the transformation fetches from, with its two indexes.
+type fetchSrc struct {
+	col krt.Collection[Obj]
+	ns  krt.Index[string, Obj]
+	val krt.Index[string, Obj]
+}
+
+func newFetchSrc(c krt.Collection[Obj]) *fetchSrc {
+	return &fetchSrc{col: c, ns: krt.NewNamespaceIndex[Obj](c),
+		val: krt.NewIndex[string, Obj](c, "val", func(o Obj) []string { return []string{o.Val} })}
+}
+
 type caseRun struct {
-	T      Transform
-	d      *disc
-	stop   chan struct{}
-	prim   krt.StaticCollection[Obj]
-	sec    krt.StaticCollection[Obj]
-	secNs  krt.Index[string, Obj]
-	secVal krt.Index[string, Obj]
-	der    krt.Collection[Out]
-	chain  bool
-	top    krt.Collection[Out] // the observed collection: der, or a collection chained behind it
-	derIdx krt.Index[string, Out]
-	subs   map[string]*subscriber
+	T       Transform
+	d       *disc
+	stop    chan struct{}
+	prim    krt.StaticCollection[Obj]
+	sec     krt.StaticCollection[Obj]
+	sec2    krt.StaticCollection[Obj]
+	secmode string // "" static sec; sd: derived copy of sec; sj: JoinCollection[sec, sec2]; s2: odd fetches use sec2
+	srcA    *fetchSrc
+	srcB    *fetchSrc
+	secM    map[string]Obj // mirrors of sec / sec2 (oracle, discipline)
+	sec2M   map[string]Obj
+	touched map[string][]int
+	unsafeJ bool
+	der     krt.Collection[Out]
+	chain   bool
+	top     krt.Collection[Out] // the observed collection: der, or a collection chained behind it
+	derIdx  krt.Index[string, Out]
+	lateIdx krt.Index[string, Out]
+	subs    map[string]*subscriber
+	psubs   map[string]*subscriber
+	dsubs   map[string]*subscriber
 }
 
 func nonNil(m map[string]string) map[string]string {
@@ -185,7 +208,7 @@ func nonNil(m map[string]string) map[string]string {
 }
 
 // fetchOpts builds the krt fetch options of one FetchSpec for input i.
-func (c *caseRun) fetchOpts(i Obj, f []Atom) []krt.FetchOption {
+func (c *caseRun) fetchOpts(i Obj, f []Atom, src *fetchSrc) []krt.FetchOption {
 	var opts []krt.FetchOption
 	for _, a := range f {
 		switch a.Kind {
@@ -198,9 +221,13 @@ func (c *caseRun) fetchOpts(i Obj, f []Atom) []krt.FetchOption {
 		case "label":
 			opts = append(opts, krt.FilterLabel(i.Sel))
 		case "nsIndex":
-			opts = append(opts, krt.FilterIndex(c.secNs, i.NS))
+			opts = append(opts, krt.FilterIndex(src.ns, i.NS))
 		case "valIndex":
-			opts = append(opts, krt.FilterIndex(c.secVal, i.Val))
+			opts = append(opts, krt.FilterIndex(src.val, i.Val))
+		case "keys":
+			opts = append(opts, krt.FilterKeys(i.Ref, i.NS+"/x"))
+		case "objName":
+			opts = append(opts, krt.FilterObjectName(types.NamespacedName{Namespace: i.NS, Name: "y"}))
 		case "generic":
 			n := a.N
 			opts = append(opts, krt.FilterGeneric(func(x any) bool { return genericPred(n, i, x.(Obj)) }))
@@ -220,11 +247,11 @@ func renderFetch(l []Obj) string {
 
 // outputs interprets the Transform for input i with the given fetch function; it is the body of
 // the transformation function handed to krt (fetch = krt.Fetch on the real secondary collection).
-func outputs(t Transform, i Obj, fetch func(f []Atom) []Obj) []Out {
+func outputs(t Transform, i Obj, fetch func(n int, f []Atom) []Obj) []Out {
 	var sb strings.Builder
 	sb.WriteString(i.NS + "|" + i.ResourceName() + ":" + i.Val + "|")
 	for n, f := range t.Fetches {
-		res := fetch(f)
+		res := fetch(n, f)
 		if n == 0 && t.Gate && len(res) == 0 {
 			return nil
 		}
@@ -242,12 +269,24 @@ func outputs(t Transform, i Obj, fetch func(f []Atom) []Obj) []Out {
 }
 
 func newCaseRun(t Transform, flagged bool) *caseRun {
-	c := &caseRun{T: t, d: newDisc(t, flagged), stop: make(chan struct{}), subs: map[string]*subscriber{}}
+	c := &caseRun{T: t, d: newDisc(t, flagged), stop: make(chan struct{}), subs: map[string]*subscriber{},
+		psubs: map[string]*subscriber{}, dsubs: map[string]*subscriber{}, secM: map[string]Obj{}, sec2M: map[string]Obj{},
+		touched: map[string][]int{}}
 	c.prim = krt.NewStaticCollection[Obj](nil, nil, krt.WithStop(c.stop), krt.WithName("prim"))
 	c.sec = krt.NewStaticCollection[Obj](nil, nil, krt.WithStop(c.stop), krt.WithName("sec"))
-	c.secNs = krt.NewNamespaceIndex[Obj](c.sec)
-	c.secVal = krt.NewIndex[string, Obj](c.sec, "val", func(o Obj) []string { return []string{o.Val} })
+	c.sec2 = krt.NewStaticCollection[Obj](nil, nil, krt.WithStop(c.stop), krt.WithName("sec2"))
 	return c
+}
+
+// fetchFn is the fetch function handed to outputs(): krt.Fetch on the source of fetch number n.
+func (c *caseRun) fetchFn(ctx krt.HandlerContext, i Obj) func(n int, f []Atom) []Obj {
+	return func(n int, f []Atom) []Obj {
+		src := c.srcA
+		if c.secmode == "s2" && n%2 == 1 {
+			src = c.srcB
+		}
+		return krt.Fetch(ctx, src.col, c.fetchOpts(i, f, src)...)
+	}
 }
 
 func (c *caseRun) start() {
@@ -255,13 +294,26 @@ func (c *caseRun) start() {
 		return
 	}
 	t := c.T
+	// the fetched collections and their indexes are created here, on already populated collections
+	switch c.secmode {
+	case "sd":
+		c.srcA = newFetchSrc(krt.NewCollection[Obj, Obj](c.sec, func(ctx krt.HandlerContext, o Obj) *Obj { return &o },
+			krt.WithStop(c.stop), krt.WithName("secD")))
+	case "sj":
+		c.srcA = newFetchSrc(krt.JoinCollection([]krt.Collection[Obj]{c.sec, c.sec2}, krt.WithStop(c.stop), krt.WithName("secJ")))
+	case "s2":
+		c.srcA = newFetchSrc(c.sec)
+		c.srcB = newFetchSrc(c.sec2)
+	default:
+		c.srcA = newFetchSrc(c.sec)
+	}
 	if t.Multi {
 		c.der = krt.NewManyCollection[Obj, Out](c.prim, func(ctx krt.HandlerContext, i Obj) []Out {
-			return outputs(t, i, func(f []Atom) []Obj { return krt.Fetch(ctx, c.sec, c.fetchOpts(i, f)...) })
+			return outputs(t, i, c.fetchFn(ctx, i))
 		}, krt.WithStop(c.stop), krt.WithName("derived"))
 	} else {
 		c.der = krt.NewCollection[Obj, Out](c.prim, func(ctx krt.HandlerContext, i Obj) *Out {
-			o := outputs(t, i, func(f []Atom) []Obj { return krt.Fetch(ctx, c.sec, c.fetchOpts(i, f)...) })
+			o := outputs(t, i, c.fetchFn(ctx, i))
 			if len(o) == 0 {
 				return nil
 			}
@@ -277,7 +329,70 @@ func (c *caseRun) start() {
 	c.derIdx = krt.NewIndex[string, Out](c.top, "ns", func(o Out) []string { return []string{o.NS} })
 	c.d.started = true
 	c.d.unsafeK = nil
+	c.unsafeJ = false
+	c.barrier()
+}
+
+func (c *caseRun) barrier() {
 	c.d.barrier()
+	c.touched = map[string][]int{}
+}
+
+func (c *caseRun) touchS(k string, i int) {
+	if !c.d.started || c.secmode != "sj" {
+		return
+	}
+	l := c.touched[k]
+	if hasInt(l, i) {
+		return
+	}
+	if len(l) > 0 {
+		c.unsafeJ = true
+	}
+	c.touched[k] = append(l, i)
+}
+
+// outFetched: keys of the fetched objects rendered in an output value (Lean: outFetched).
+func outFetched(v string) []string {
+	var ks []string
+	segs := strings.Split(v, "[")
+	for _, seg := range segs[1:] {
+		body := strings.SplitN(seg, "]", 2)[0]
+		for _, e := range strings.Split(body, ",") {
+			if e != "" {
+				ks = append(ks, strings.SplitN(e, "=", 2)[0])
+			}
+		}
+	}
+	return ks
+}
+
+func (c *caseRun) guard() string {
+	switch {
+	case !c.d.started:
+		return "not-started"
+	case (!c.d.flagged && len(c.d.unsafeK) > 0) || c.unsafeJ:
+		return "undisciplined"
+	case !c.d.uniqueClaims():
+		return "ambiguous"
+	}
+	return ""
+}
+
+func recObj(s *subscriber) func(es []krt.Event[Obj]) {
+	return func(es []krt.Event[Obj]) {
+		for _, e := range es {
+			s.add(evToken(e, func(o Obj) string { return o.Token() }))
+		}
+	}
+}
+
+func recOut(s *subscriber) func(es []krt.Event[Out]) {
+	return func(es []krt.Event[Out]) {
+		for _, e := range es {
+			s.record(e)
+		}
+	}
 }
 
 func showEntries(outs []Out, keep func(k string) bool) string {
@@ -321,7 +436,7 @@ func filterToks(evs []string, keep func(k string) bool) []string {
 func (c *caseRun) step(toks []string) (string, string) {
 	line := strings.Join(toks, " ")
 	answer := func(u bool, body func() string) string {
-		if g := c.d.guard(); g != "" {
+		if g := c.guard(); g != "" {
 			return g
 		}
 		if u && !c.d.flagged {
@@ -338,9 +453,25 @@ func (c *caseRun) step(toks []string) (string, string) {
 		c.d.primSet(o)
 		c.prim.UpdateObject(o)
 		return "ok", line
+	case toks[0] == "p.cset" && len(toks) == 2:
+		o, ok := parseObj(toks[1])
+		if !ok {
+			return "bad-op", line
+		}
+		c.d.primSet(o)
+		c.prim.ConditionalUpdateObject(o)
+		return "ok", line
 	case toks[0] == "p.del" && len(toks) == 2:
 		c.d.primDel(toks[1])
 		c.prim.DeleteObject(toks[1])
+		return "ok", line
+	case toks[0] == "p.delwhere" && len(toks) == 2:
+		for k, o := range c.d.prim {
+			if o.NS == toks[1] {
+				delete(c.d.prim, k)
+			}
+		}
+		c.prim.DeleteObjects(func(o Obj) bool { return o.NS == toks[1] })
 		return "ok", line
 	case toks[0] == "p.reset":
 		objs := parseObjs(toks[1:])
@@ -352,20 +483,100 @@ func (c *caseRun) step(toks []string) (string, string) {
 		if !ok {
 			return "bad-op", line
 		}
+		c.touchS(o.ResourceName(), 0)
+		c.secM[o.ResourceName()] = o
 		c.sec.UpdateObject(o)
 		return "ok", line
+	case toks[0] == "s.cset" && len(toks) == 2:
+		o, ok := parseObj(toks[1])
+		if !ok {
+			return "bad-op", line
+		}
+		c.touchS(o.ResourceName(), 0)
+		c.secM[o.ResourceName()] = o
+		c.sec.ConditionalUpdateObject(o)
+		return "ok", line
 	case toks[0] == "s.del" && len(toks) == 2:
+		c.touchS(toks[1], 0)
+		delete(c.secM, toks[1])
 		c.sec.DeleteObject(toks[1])
 		return "ok", line
+	case toks[0] == "s.delwhere" && len(toks) == 2:
+		for k, o := range c.secM {
+			if o.NS == toks[1] {
+				c.touchS(k, 0)
+				delete(c.secM, k)
+			}
+		}
+		c.sec.DeleteObjects(func(o Obj) bool { return o.NS == toks[1] })
+		return "ok", line
 	case toks[0] == "s.reset":
-		c.sec.Reset(parseObjs(toks[1:]))
+		objs := parseObjs(toks[1:])
+		for k := range c.secM {
+			c.touchS(k, 0)
+		}
+		c.secM = map[string]Obj{}
+		for _, o := range objs {
+			c.touchS(o.ResourceName(), 0)
+			c.secM[o.ResourceName()] = o
+		}
+		c.sec.Reset(objs)
+		return "ok", line
+	case toks[0] == "t.set" && len(toks) == 2:
+		o, ok := parseObj(toks[1])
+		if !ok {
+			return "bad-op", line
+		}
+		c.touchS(o.ResourceName(), 1)
+		c.sec2M[o.ResourceName()] = o
+		c.sec2.UpdateObject(o)
+		return "ok", line
+	case toks[0] == "t.del" && len(toks) == 2:
+		c.touchS(toks[1], 1)
+		delete(c.sec2M, toks[1])
+		c.sec2.DeleteObject(toks[1])
+		return "ok", line
+	case toks[0] == "lateindex" && len(toks) == 1:
+		if c.der != nil && c.lateIdx == nil {
+			// created on an already populated collection; the extractor returns 0, 1 or several keys
+			c.lateIdx = krt.NewIndex[string, Out](c.top, "fetched", func(o Out) []string { return outFetched(o.Val) })
+		}
+		return "ok", line
+	case toks[0] == "psub" && len(toks) == 3:
+		s := &subscriber{}
+		c.psubs[toks[1]] = s
+		switch toks[2] {
+		case "single":
+			c.prim.Register(func(e krt.Event[Obj]) { recObj(s)([]krt.Event[Obj]{e}) })
+		case "batch":
+			c.prim.RegisterBatch(recObj(s), true)
+		default:
+			c.prim.RegisterBatch(recObj(s), false)
+		}
+		return "ok", line
+	case toks[0] == "dsub" && len(toks) == 3:
+		if c.der == nil {
+			return "ok", line
+		}
+		s := &subscriber{}
+		c.dsubs[toks[1]] = s
+		switch toks[2] {
+		case "single":
+			c.der.Register(s.record)
+		case "batch":
+			c.der.RegisterBatch(recOut(s), true)
+		default:
+			synctest.Wait()
+			c.barrier()
+			c.der.RegisterBatch(recOut(s), false)
+		}
 		return "ok", line
 	case toks[0] == "start" && len(toks) == 1:
 		c.start()
 		return "ok", line
 	case toks[0] == "sync" && len(toks) == 1:
 		synctest.Wait()
-		c.d.barrier()
+		c.barrier()
 		return "ok", line
 	case toks[0] == "sub" && len(toks) == 3:
 		if c.der == nil {
@@ -384,7 +595,7 @@ func (c *caseRun) step(toks []string) (string, string) {
 			}, true)
 		default: // nostate
 			synctest.Wait()
-			c.d.barrier()
+			c.barrier()
 			c.top.RegisterBatch(func(es []krt.Event[Out]) {
 				for _, e := range es {
 					s.record(e)
@@ -394,11 +605,42 @@ func (c *caseRun) step(toks []string) (string, string) {
 		return "ok", line
 	}
 	// queries: all imply a barrier
-	if c.der != nil {
+	if c.der != nil || toks[0] == "pstream" {
 		synctest.Wait()
 	}
-	c.d.barrier()
+	c.barrier()
+	streamOf := func(name string, subs map[string]*subscriber, u, guarded bool) (string, string) {
+		s := subs[toks[1]]
+		var evs []string
+		if s != nil {
+			evs = s.snapshot()
+		}
+		body := func() string {
+			if s == nil {
+				return "unknown-subscriber"
+			}
+			return "accept"
+		}
+		impl := name + " "
+		if guarded {
+			impl += answer(u, body)
+		} else {
+			impl += body()
+		}
+		return impl, strings.Join(append([]string{name, toks[1]}, evs...), " ")
+	}
 	switch {
+	case toks[0] == "flookup" && len(toks) == 2:
+		return "flookup " + answer(false, func() string {
+			if c.lateIdx == nil {
+				return "no-index"
+			}
+			return showEntries(c.lateIdx.Lookup(toks[1]), func(k string) bool { return !c.d.inU(k) })
+		}), line
+	case toks[0] == "pstream" && len(toks) == 2:
+		return streamOf("pstream", c.psubs, false, false)
+	case toks[0] == "dstream" && len(toks) == 2:
+		return streamOf("dstream", c.dsubs, false, true)
 	case toks[0] == "list" && len(toks) == 1:
 		return "list " + answer(false, func() string {
 			return showEntries(c.top.List(), func(k string) bool { return !c.d.inU(k) })
@@ -491,6 +733,15 @@ type runner interface {
 
 func (c *caseRun) close() { close(c.stop) }
 
+func (c *caseRun) setFlags(flags []string) {
+	c.chain = contains(flags, "chain")
+	for _, m := range []string{"sd", "sj", "s2"} {
+		if contains(flags, m) && c.secmode == "" {
+			c.secmode = m
+		}
+	}
+}
+
 // newRunner builds the program named by the case header (nil: malformed header).
 func newRunner(head []string) runner {
 	if len(head) >= 3 && head[0] == "case" && strings.HasPrefix(head[2], "mem") {
@@ -510,7 +761,7 @@ func newRunner(head []string) runner {
 		return nil
 	}
 	c := newCaseRun(tr, contains(head[4:], "f6"))
-	c.chain = contains(head[4:], "chain")
+	c.setFlags(head[4:])
 	return c
 }
 
